@@ -154,9 +154,18 @@ _POOL = (["$"] * 10 + ["{", "}", "(", ")"] * 3 + list("aAbBzZ_019") * 2 +
 _VALS = ["", "x", "$", "$$", "$a", "${b}", "$(c)", "v w", "é$", "}", ")"]
 
 
+_TRAIL = ["\n", "\r", "\r\n", "\n\n", " ", "\t", "\x0b", "\x0c", "\u2028", "\x85", "\x00", "\x1c"]
+
+
 def random_case(rng, maxlen):
     n = rng.randint(0, maxlen) if rng.random() < 0.8 else rng.randint(0, 6)
-    if rng.random() < 0.5:
+    if rng.random() < 0.06:
+        # a name (or a reference to one) with white space / a line end stuck to it: "abc\n" is no name
+        name = rng.choice(["a", "abc", "_", "A1", "b_2"])
+        src = rng.choice(["", "$", "${"]) + name + rng.choice(_TRAIL)
+        if src.startswith("${"):
+            src += "}"
+    elif rng.random() < 0.5:
         # grammar-shaped: sequences of constructs with noise
         parts = []
         while sum(map(len, parts)) < n:
